@@ -363,7 +363,7 @@ fn specs(thorough: bool) -> Vec<Spec> {
 
 pub fn run(cli: Cli) -> ! {
     let rep = Report::new("C03", cli.tier, "model_checking");
-    if let Some(case) = cli.replay.clone() {
+    if let Some(case) = cli.replay.clone().filter(|c| c.get("lookups").is_none()) {
         let s: Spec = serde_json::from_value(case["spec"].clone()).unwrap_or_else(|e| common::machinery(&format!("bad replay: {e}")));
         let (a, b) = (crate::sim::run(&build(&s)), crate::sim::run(&build(&s)));
         if a.kinds() != b.kinds() || a.result != b.result {
@@ -402,6 +402,49 @@ pub fn run(cli: Cli) -> ! {
             rep.violation(Violation { key: k, text: format!("{t}; spec {}", serde_json::to_string(s).unwrap()), replay: json!({"spec": s}), weight: i as u64 });
         }
     });
+    // One localisation adapter instance serves every connection of a process: sequences of two and three lookups
+    // on the same real FixedLocalizationAdapter (different regions of one language, one after the other, in every
+    // order) must each give the message the fallback chain prescribes for that locale alone.
+    let lookups = AtomicU64::new(0);
+    {
+        use passage_adapters::localization::LocalizationAdapter;
+        let long = "l".repeat(64);
+        let locales = ["en_us", "en_gb", "en", "de_de", "de_at", "de_AT", "de_ch", "de", "fr_FR", "fr_ca", "pt_pt", "pt_br", "pt", "xx_yy", "", "de_", "de_de_x", long.as_str()];
+        let tables = ["en+de+de_at", "de_de-only", "none", "default-absent", "default-de", "exact-default", "full-names", "mixed", "plain-text"];
+        par_for(tables.len(), |ti| {
+            let (d, tbl) = table(tables[ti]);
+            let rt = tokio::runtime::Builder::new_current_thread().build().expect("rt");
+            for a in &locales {
+                for b in &locales {
+                    for c in [None, Some("de_at"), Some("en_gb")] {
+                        let messages: std::collections::HashMap<String, std::collections::HashMap<String, String>> = tbl.iter().map(|(l, m)| (l.clone(), m.iter().cloned().collect())).collect();
+                        let adapter = passage_adapters::FixedLocalizationAdapter::new(d.clone(), messages);
+                        let seq: Vec<&str> = [Some(*a), Some(*b), c].into_iter().flatten().collect();
+                        for (k, loc) in seq.iter().enumerate() {
+                            lookups.fetch_add(1, Ordering::Relaxed);
+                            let got = rt.block_on(adapter.localize(Some(loc), "disconnect_no_target", &[]));
+                            let want = expected_message(loc, &d, &tbl, "disconnect_no_target");
+                            let ok = match (&got, &want) {
+                                (Ok(g), Some(w)) => g == w,
+                                // no table anywhere in the chain: what is answered then is not fixed by the statement
+                                (_, None) => true,
+                                (Err(_), Some(_)) => false,
+                            };
+                            if !ok {
+                                rep.violation(Violation {
+                                    key: "no-target-text:depends-on-earlier-lookups".into(),
+                                    text: format!("tables {:?} (default {d}): lookup #{k} of the sequence {seq:?} on one adapter instance gave {got:?}, the configured message for {loc:?} is {want:?}", tables[ti]),
+                                    replay: json!({"lookups": seq, "table": tables[ti]}),
+                                    weight: 50 + k as u64,
+                                });
+                            }
+                        }
+                    }
+                }
+            }
+        });
+    }
+    rep.set("lookup_sequences_on_one_localisation_adapter", json!(lookups.load(Ordering::Relaxed)));
     let d = distinct.lock().unwrap().len() as u64;
     rep.require("runs with a Transfer", transfers.load(Ordering::Relaxed), 50);
     rep.require("runs with a Disconnect", disconnects.load(Ordering::Relaxed), 50);
@@ -412,7 +455,7 @@ pub fn run(cli: Cli) -> ! {
     rep.set("evaluations", json!(all.len()));
     rep.set("distinct_nontrivial", json!(d));
     rep.set("exhaustive", json!(true));
-    rep.set("rule", json!("full product discovery(8) x filter(7) x strategy(6) x adapter latencies, plus client locale(19) x localisation table(9) on both no-target paths, plus returning players (Transfer intent, valid cookie naming each target on offer or a vanished one as the previous destination) x 5 discoveries x 4 filters x 5 strategies; distinct_nontrivial = distinct (clientbound trace without keep-alives, result)"));
+    rep.set("rule", json!("full product discovery(8) x filter(7) x strategy(6) x adapter latencies, plus client locale(19) x localisation table(9) on both no-target paths, plus returning players (Transfer intent, valid cookie naming each target on offer or a vanished one as the previous destination) x 5 discoveries x 4 filters x 5 strategies, plus every sequence of two or three lookups over 18 locales on one instance of the real localisation adapter x 9 tables; distinct_nontrivial = distinct (clientbound trace without keep-alives, result)"));
     rep.sample(json!({"spec": all[0]}));
     rep.sample(json!({"spec": Spec { disc: "v4+v6".into(), filter: "reverse".into(), strat: "pick-0".into(), locale: "de_de".into(), table: "en+de+de_at".into(), lat: [0, 0, 0], ka_stall: None, cookie_target: None }, "expect": "Transfer to 2001:db8::1 port 65535"}));
     rep.sample(json!({"spec": Spec { disc: "v4".into(), filter: "identity".into(), strat: "none".into(), locale: "de_AT".into(), table: "en+de+de_at".into(), lat: [0, 0, 0], ka_stall: None, cookie_target: None }, "expect": "Disconnect with the 'de' message (de_AT -> de)"}));
